@@ -177,26 +177,26 @@ impl<'a> GeneratorState<'a> {
                 signed = *s;
             },
             ExprType::X => {
-                if acc_in_use { self.sasm(PHA)?; }
-                // Optimization in case of or 0
+                // Optimization in case of or 0 (before anything is pushed: nothing is emitted)
                 if let Operation::Or(_) = op {
                     if let ExprType::Immediate(v) = right2 {
                         if !high_byte && (v & 0xff) == 0 { return Ok(ExprType::X); }
                         else if high_byte && (v & 0xff00) == 0 { return Ok(ExprType::X); }
                     }
                 }
+                if acc_in_use { self.sasm(PHA)?; }
                 self.sasm(TXA)?;
                 signed = false;
             },
             ExprType::Y => {
-                if acc_in_use { self.sasm(PHA)?; }
-                // Optimization in case of or 0
+                // Optimization in case of or 0 (before anything is pushed: nothing is emitted)
                 if let Operation::Or(_) = op {
                     if let ExprType::Immediate(v) = right2 {
                         if !high_byte && (v & 0xff) == 0 { return Ok(ExprType::Y); }
                         else if high_byte && (v & 0xff00) == 0 { return Ok(ExprType::Y); }
                     }
                 }
+                if acc_in_use { self.sasm(PHA)?; }
                 self.sasm(TYA)?;
                 signed = false;
             },
